@@ -6,7 +6,8 @@
    arbitrary answer scripts (iterators yielding after None, lying size hints). *)
 From Coq Require Import ZArith List Bool Lia Permutation.
 From MV Require Import Ast Eval Scalar Machine Model Policy.
-From MV.Proofs Require Import Arith Logic Prim View OpsLocal Guards Drops DrainIt Retain CapHistory Core FilterIt Grow Dedup Refine Clone Extend RetainSpec RetainAbs.
+From MV.Proofs Require Import Arith Logic Prim View OpsLocal Guards Drops DrainIt Retain CapHistory Core FilterIt Grow Dedup Refine Clone Extend RetainSpec RetainAbs RetainSource.
+From MV Require Import EquivDefs Prims EquivRetain.
 Import ListNotations.
 Open Scope Z_scope.
 
@@ -199,3 +200,28 @@ Theorem C17_retain_without_panics_is_filter :
     (map fst (filter snd (combine l bs)), map fst (filter (fun x => negb (snd x)) (combine l bs)), false, []).
 Proof. exact rspec_filter. Qed.
 Print Assumptions C17_retain_without_panics_is_filter.
+
+(* END TO END for retain: the REGENERATED body of MiniVec::retain (src/lib.rs, re-translated on every run),
+   evaluated by the IR semantics in the machine world, meets the list-level specification -- for every
+   vector that owns its elements, every predicate script (true / false / panic in any pattern), every kind
+   of two-argument closure in the world and every fuel at least the length.  No outcome other than return,
+   panic, or an abort during unwinding is possible: no undefined behaviour, no stuck IR construct. *)
+Theorem C17_the_source_of_retain_meets_the_list_spec :
+  forall cfg ncap, cfg_ok cfg -> needs_drop cfg = true ->
+  forall kind s v l sc F,
+  vabs cfg s v l -> (List.length l <= F)%nat ->
+  let '(k, j, p, u) := rspec l sc in
+  match run_retain cfg ncap kind (FUEL + F) v sc s with
+  | (Norm _, s') =>
+      p = false /\ vabs cfg s' v k /\ (forall e, In e j -> ledger s' e = Dropped) /\
+      (forall e, ~ In e j -> ledger s' e = ledger s e) /\ next_elem s' = next_elem s
+  | (Panic, s') =>
+      next_elem s' = next_elem s /\
+      ((p = true /\ exists l', Permutation l' l /\ vabs cfg s' v l' /\ ledger s' = ledger s) \/
+       (p = false /\ vabs cfg s' v k /\ (forall e, In e j -> ledger s' e = Dropped) /\
+        (forall e, ~ In e j -> ledger s' e = ledger s e)))
+  | (Fail FAbort, _) | (Fail (FAllocAbort _ _), _) => True
+  | _ => False
+  end.
+Proof. exact retain_source_meets_the_list_spec. Qed.
+Print Assumptions C17_the_source_of_retain_meets_the_list_spec.
